@@ -26,7 +26,8 @@ RULE = ('generated designed meshes (low p_max amplifier models in half of the ca
         'bidirectional, infeasible thresholds, unsatisfiable STRICT routes) run alone / first / last / in random '
         'orders back to back on one network object. Each (request, run) pair is one observation. Non-trivial: a batch '
         'that contains at least one saturating or blocked request next to a served one. Distinct: hash of (topology, '
-        'batch).')
+        'batch).'
+        ' Also point-to-point lines without ROADMs.')
 ASSUMPTIONS = ['batches carry no synchronisation vectors and no aggregatable duplicates (their coupling is the subject of '
                'C12 / C19)', 'spectrum labels and spectrum-related blocking reasons are excluded as the statement says',
                'results compared exactly (same floating point values)']
